@@ -141,6 +141,38 @@ fn p_str_concrete() {
     str_case("a\u{df}\u{20ac}b\u{1F600}", 11);
     kani::cover!(true, "end");
 }
+#[kani::proof]
+fn p_str_ext_write() {
+    // builtin external traits: fmt::Write (string in, integer-coded unit result out), AsMut (returned &mut T)
+    let mut rec = rec0();
+    let text = "aß€b\u{1F600}";
+    let bounds = [0usize, 1, 3, 6, 7, 11];
+    let (a, b): (usize, usize) = kani::any();
+    kani::assume(a <= b && b < 6);
+    let s = &text[bounds[a]..bounds[b]];
+    let idx = rec.idx;
+    let fail = rec.out_variant != 0;
+    let wv: u64 = kani::any();
+    if kani::any() {
+        let mut obj = trait_obj!(imp(&mut rec) as ::ext::core::fmt::Write);
+        use core::fmt::Write as _;
+        let r = obj.write_str(s);
+        core::mem::forget(obj);
+        assert!(r.is_err() == fail, "C02 the integer-coded unit result of fmt::Write returns unchanged");
+        assert!(rec.calls == 1 && rec.tag == 40, "C02 exactly one call of the right method");
+        assert!(rec.ptr == s.as_ptr() as usize && rec.len == s.len(), "C02 string arrives with the same address and byte length (fmt::Write)");
+        if idx < s.len() { assert!(rec.elem == s.as_bytes()[idx] as u64, "C02 string arrives with the same bytes (fmt::Write)"); }
+        kani::cover!(fail && a == 0 && b == 5, "error, whole string");
+        kani::cover!(!fail && a == b, "ok, empty string");
+    } else {
+        let mut obj = trait_obj!(imp(&mut rec) as AsMut<u64>);
+        let p1 = { let m: &mut u64 = obj.as_mut(); *m = wv; m as *mut u64 as usize };
+        let (p2, v2) = { let m: &mut u64 = obj.as_mut(); (m as *mut u64 as usize, *m) };
+        core::mem::forget(obj);
+        assert!(p1 == p2 && v2 == wv, "C02 a write through the returned &mut T lands in the implementor (AsMut)");
+        assert!(rec.calls == 2 && rec.tag == 41, "C02 exactly one call of the right method per request");
+    }
+}
 //@ prefix=p_opt kind=property clause=Option<T> (wrapped), Option<&T> (forwarded), Result<T,E> (wrapped): variant and payload arrive and return unchanged
 #[kani::proof]
 fn p_opt_res() {
